@@ -44,6 +44,12 @@ var entities = []entityDef{
 	{"MItem", true, []keyDef{{"FindManyMItemBySkus", [][]string{{"sku"}}}, {"FindManyMItemByUpcs", [][]string{{"upc"}}}}},
 }
 
+// valueEntities: do the entity resolvers of this vector return values instead of pointers?
+func valueEntities(s *proj.Server) bool {
+	f := reflect.ValueOf(s.Stub).Elem().FieldByName("EntityResolver").FieldByName("FindUserByID")
+	return f.IsValid() && f.Type().Out(0).Kind() != reflect.Ptr
+}
+
 func entityByName(n string) *entityDef {
 	for i := range entities {
 		if entities[i].name == n {
@@ -93,14 +99,25 @@ func treeVals(args []reflect.Value) []any {
 }
 
 func newEntity(t reflect.Type, marker string) reflect.Value {
-	// t is *Entity
-	p := reflect.New(t.Elem())
+	// t is *Entity, or Entity with resolvers_always_return_pointers: false
+	st := t
+	if t.Kind() == reflect.Ptr {
+		st = t.Elem()
+	}
+	p := reflect.New(st)
 	f := p.Elem().FieldByName("Marker")
 	if f.IsValid() {
 		m := marker
-		f.Set(reflect.ValueOf(&m))
+		if f.Kind() == reflect.Ptr {
+			f.Set(reflect.ValueOf(&m))
+		} else {
+			f.SetString(m)
+		}
 	}
-	return p
+	if t.Kind() == reflect.Ptr {
+		return p
+	}
+	return p.Elem()
 }
 
 var errType = reflect.TypeOf((*error)(nil)).Elem()
@@ -446,6 +463,11 @@ func check(c Case) *vfrun.Failure {
 				// known finding: the whole batch of a multi entity type is resolved through the key
 				// resolver of its first representation; elements of such a batch are not asserted
 				knownHit = true
+				continue
+			}
+			if ex.null && !ex.failing && valueEntities(s) {
+				// resolvers that return values (resolvers_always_return_pointers: false) cannot say
+				// "no entity": the zero entity stands there
 				continue
 			}
 			if ex.null {
